@@ -311,6 +311,18 @@ static const long kWitness = 4;
 long verif::verif_ncases(const std::string & tier) { return kWitness + (tier == "thorough" ? 9000 : 2000); }
 
 void verif::verif_case(Rng & rng, long idx, const std::string & tier) {
+    if (idx == 0) {
+        // the driver evaluates `log`/`sqrt` itself (Lean Float -> libm); make sure both sides use the same functions:
+        // samples of the three expressions the planners evaluate, compared bit for bit by the driver
+        Line l; l << "C19" << "lib" << (size_t)48;
+        for (unsigned k = 1; k <= 48; ++k) {
+            double lg = std::log(k + 1.0);
+            double bon = 0.7 * std::sqrt(lg / (double)(1 + k % 7));
+            double p = (double)(1 + k % 5) / (double)(k + 5); double pl = p * std::log(p);
+            l << lg << bon << pl;
+        }
+        l.emit();
+    }
     bool witness = idx < kWitness;
     int kind = witness ? (int)(idx % 4) : (int)rng.below(6);     // 4 = MCTS on a hashed non-integral state type, 5 = rPOMCP with the entropy measure
     unsigned maxSteps = 0;
